@@ -277,3 +277,58 @@ def hash_order_source(t):
             if "IntoIterator>::into_iter" in nm and ("collections::HashMap<" in nm or "collections::HashSet<" in nm):
                 return x
     return None
+
+
+# ---------------------------------------------------------------------------------------------
+# polynomial normal form (for index arithmetic that multiplies two program quantities)
+
+def poly(t, nv=None, _depth=0):
+    """{monomial: coeff} where a monomial is a sorted tuple of normed atom terms (() = constant), or None."""
+    if t[0] in ("ref", "deref", "cast"):
+        return poly(t[1], nv, _depth)
+    if t[0] == "const" and isinstance(t[1], int) and not isinstance(t[1], bool):
+        return {(): t[1]} if t[1] else {}
+    if t[0] == "field" and t[3] == 0 and t[1][0] == "bin" and t[1][1].endswith("WithOverflow"):
+        return poly(("bin", t[1][1].replace("WithOverflow", ""), t[1][2], t[1][3]), nv, _depth)
+    if t[0] == "bin":
+        op = t[1].replace("WithOverflow", "").replace("Unchecked", "")
+        if op in ("Add", "Sub", "Mul"):
+            a = poly(t[2], nv, _depth)
+            b = poly(t[3], nv, _depth)
+            if a is None or b is None:
+                return None
+            if op in ("Add", "Sub"):
+                out = dict(a)
+                for m, c in b.items():
+                    out[m] = out.get(m, 0) + (c if op == "Add" else -c)
+                return {m: c for m, c in out.items() if c}
+            out = {}
+            for m1, c1 in a.items():
+                for m2, c2 in b.items():
+                    m = tuple(sorted(m1 + m2, key=repr))
+                    out[m] = out.get(m, 0) + c1 * c2
+            return {m: c for m, c in out.items() if c}
+        if op == "Shl" and t[3][0] == "const":
+            a = poly(t[2], nv, _depth)
+            return None if a is None else {m: c << t[3][1] for m, c in a.items()}
+    if t[0] == "local" and nv is not None and _depth < 8:
+        ds = nv.defs().get(t[1], [])
+        if len(ds) == 1 and ds[0][2] == "assign":
+            d = nv.definition(t[1])
+            dd = d
+            while dd[0] == "cast":
+                dd = dd[1]
+            if dd[0] == "field" and dd[1][0] == "bin":
+                dd = ("bin", dd[1][1].replace("WithOverflow", ""), dd[1][2], dd[1][3])
+            if dd[0] == "bin" and dd[1].replace("WithOverflow", "") in ("Add", "Sub", "Mul") or dd[0] in ("const", "local"):
+                return poly(d, nv, _depth + 1)
+    return {(norm(t),): 1}
+
+
+def fmt_poly(p):
+    if p is None:
+        return "non-polynomial"
+    parts = []
+    for m, c in sorted(p.items(), key=lambda kv: repr(kv[0])):
+        parts.append(("%d" % c) + "".join("*" + fmt(a)[:28] for a in m))
+    return " + ".join(parts) or "0"
